@@ -80,6 +80,10 @@ PROPS = [
     dict(id="C12", functions=TELLHUB + ASKHUB + f("s/swarmutil", "(*Queue).Receive") + f("s/multiswarm", "(*multiSwarm).Close"), assumptions=COMMON + HUBS),
     dict(id="C13", functions=TELLHUB + ASKHUB + f("s/swarmutil", "(*Queue).Receive") + f("s/udpswarm", "(*Swarm).Receive"), assumptions=COMMON + HUBS + ["net.UDPConn.ReadFromUDP blocks on the socket only (no cancellation, no deadline set by the caller): model"]),
     dict(id="C15", functions=MUX + DISPATCH, assumptions=COMMON + BINARY + ["the channel table (sync.Map) only holds swarms built by newMuxedSwarm: trusted contract on muxCore.getSwarm"]),
+    dict(id="C16", level="exploration", functions=[],
+         bounded=["c16:s/udpswarm:udpswarm.go.txt", "c16:s/sshswarm:sshswarm.go.txt", "c16:s/quicswarm:nested.go.txt:quicswarm", "c16:s/p2pkeswarm:nested.go.txt:p2pkeswarm"],
+         assumptions=["BOUNDED stand-in, not a proof: the round-trip clause is executed on the real marshal / parse functions over the finite domains stated per stand-in (harnesses under /verif/bounded/c16, injected with go test -overlay)",
+                      "the parsers go through net/netip, regexp, strconv, base64 and fmt, which cannot be brought under contracts here; multiswarm, memswarm and vswarm addresses are not covered"]),
     dict(id="C17", functions=IDS, assumptions=COMMON + ["encoding/base64 Decode/Encode write only their destination; EncodedLen/DecodedLen are pure (assumed)",
          "x509.MarshalPublicKey (ASN.1) is behind a trusted contract: the marshal/parse round trip is not decided",
          "crypto/subtle.ConstantTimeCompare returns 1 exactly for equal byte strings (model)"]),
